@@ -86,3 +86,87 @@ def daily_reporting_df(rng, tz, start, n, with_observed=True, temp_nan=0.0, obs_
         k = rng.choice(n, size=max(1, int(obs_nan * n)), replace=False)
         df.iloc[k, 1] = np.nan
     return df
+
+
+# ---------------------------------------------------------------------------------------------------
+# one interface over the model families (used by C01, C02, C03, C04, C05, C06)
+# ---------------------------------------------------------------------------------------------------
+class Family:
+    """name in {daily:<profile>, billing, hourly:<profile>[:ghi], caltrack}"""
+
+    def __init__(self, name):
+        self.name = name
+        parts = name.split(":")
+        self.kind = parts[0]
+        self.profile = parts[1] if len(parts) > 1 else ("current" if self.kind == "daily" else "default")
+        self.ghi = len(parts) > 2 and parts[2] == "ghi"
+
+    # ---- classes ------------------------------------------------------------------------------------
+    def classes(self):
+        import opendsm.eemeter as em
+        if self.kind == "daily":
+            return em.DailyModel, em.DailyBaselineData, em.DailyReportingData
+        if self.kind == "billing":
+            return em.BillingModel, em.BillingBaselineData, em.BillingReportingData
+        if self.kind == "hourly":
+            return em.HourlyModel, em.HourlyBaselineData, em.HourlyReportingData
+        from opendsm.eemeter.models.hourly_caltrack import HourlyModel, HourlyBaselineData, HourlyReportingData
+        return HourlyModel, HourlyBaselineData, HourlyReportingData
+
+    def new_model(self, seed=1):
+        import opendsm.eemeter as em
+        M = self.classes()[0]
+        if self.kind == "daily":
+            return make_daily_model(self.profile)
+        if self.kind == "billing":
+            return M()
+        if self.kind == "hourly":
+            return M(settings=dict(copy.deepcopy(HOURLY_PROFILES[self.profile]), seed=seed))
+        return M()
+
+    # ---- data ---------------------------------------------------------------------------------------
+    def baseline_frame(self, rng, tz="America/Chicago", days=365, noise=0.05, start=None, kind="both", weekend=0.2):
+        if self.kind == "daily":
+            return daily_baseline_df(rng, tz=tz, kind=kind, n=days, noise=noise, weekend=weekend, start=start)
+        if self.kind == "billing":
+            tdf, bdf, _ = billing_reads(rng, tz=tz, start=start or "2018-01-01", n_periods=max(3, days // 30), kind=kind, noise=noise)
+            return tdf.join(bdf).iloc[:-1]
+        return synth_hourly(tz=tz, start=start or "2018-01-01", days=days, seed=rng, ghi=self.ghi, noise=noise)
+
+    def baseline_data(self, df):
+        B = self.classes()[1]
+        return B(df.copy() if self.kind == "caltrack" else df, is_electricity_data=True)
+
+    def reporting_frame(self, rng, tz, start, days, with_observed=True, mean=None):
+        if self.kind in ("daily", "billing"):
+            return daily_reporting_df(rng, tz, start, days, with_observed=with_observed, mean=mean)
+        df = synth_hourly(tz=tz, start=start, days=days, seed=rng, ghi=self.ghi, noise=0.05, mean=mean if mean is not None else 55.0)
+        if not with_observed:
+            df = df.drop(columns=["observed"])
+        return df
+
+    def reporting_data(self, df):
+        R = self.classes()[2]
+        return R(df.copy() if self.kind == "caltrack" else df, is_electricity_data=True)
+
+    # ---- operations ---------------------------------------------------------------------------------
+    def fit(self, model, data, ignore_dq=True):
+        if self.kind == "caltrack":
+            return model.fit(data)
+        return model.fit(data, ignore_disqualification=ignore_dq)
+
+    def predict(self, model, data, ignore_dq=True, **kw):
+        if self.kind == "caltrack":
+            return model.predict(data)
+        return model.predict(data, ignore_disqualification=ignore_dq, **kw)
+
+    def from_json(self, js):
+        return self.classes()[0].from_json(js)
+
+    def from_dict(self, d):
+        return self.classes()[0].from_dict(d)
+
+
+FAMILIES_QUICK = ["daily:current", "daily:legacy", "billing", "hourly:default", "hourly:default:ghi", "caltrack"]
+FAMILIES_ALL = ["daily:" + p for p in DAILY_PROFILES] + ["billing"] + ["hourly:" + p for p in HOURLY_PROFILES] + \
+               ["hourly:default:ghi", "hourly:robust:ghi", "hourly:bins8:ghi"] + ["caltrack"]
